@@ -116,6 +116,8 @@ def step_proof(mod, ev):
     hits = coqrun.grep_forbidden([mod.COQ_DIR, "Common", "gen"] + list(getattr(mod, "EXTRA_COQ_DIRS", [])))
     if hits:
         broken.append("forbidden vernacular: " + "; ".join(hits[:5]))
+    if obligations == 0:
+        broken.append("no property theorem is stated in " + ", ".join(mod.PROPS))
     ev["obligations"] = obligations
     ev["discharged"] = discharged
     ev["theorems"] = thm_names
